@@ -34,6 +34,37 @@ _idxcache = {}
 _codec = None
 
 
+def _guarded_decode(stream_bytes):
+    """the repository's C decoder is fast but calls exit() on a malformed stream: small streams go through the reference decoder, large ones through
+    the C decoder in a forked child, so a stream that does not decode becomes an ExecError of this case instead of killing the worker"""
+    if len(stream_bytes) <= 1536:
+        try:
+            return np.asarray(mlwref.decode(stream_bytes), dtype=np.int64)
+        except mlwref.MlwError as e:
+            raise ExecError("weight stream does not decode: %s" % e)
+    import os
+
+    r, w_ = os.pipe()
+    pid = os.fork()
+    if pid == 0:
+        code = 1
+        try:
+            os.close(r)
+            out = np.asarray(_codec.decode(bytearray(stream_bytes)), dtype=np.int16).tobytes()
+            with os.fdopen(w_, "wb") as f:
+                f.write(out)
+            code = 0
+        finally:
+            os._exit(code)
+    os.close(w_)
+    with os.fdopen(r, "rb") as f:
+        data = f.read()
+    _, st = os.waitpid(pid, 0)
+    if st != 0:
+        raise ExecError("weight stream does not decode (decoder aborted)")
+    return np.frombuffer(data, dtype=np.int16).astype(np.int64)
+
+
 def _decode_weights(stream_bytes, counters):
     global _codec
     key = hash(stream_bytes)
@@ -44,7 +75,7 @@ def _decode_weights(stream_bytes, counters):
         import ethosu.mlw_codec as _c
 
         _codec = _c
-    w = np.asarray(_codec.decode(bytearray(stream_bytes)), dtype=np.int64)
+    w = _guarded_decode(stream_bytes)
     counters["weight_streams_decoded"] = counters.get("weight_streams_decoded", 0) + 1
     if len(stream_bytes) <= 4096 and counters["weight_streams_decoded"] % 8 == 1:
         ref = np.asarray(mlwref.decode(stream_bytes), dtype=np.int64)
